@@ -107,6 +107,13 @@ pub fn tamper_proof(
         "point_identity" => {
             bytes[off..off + 32].copy_from_slice(&[0u8; 32]);
         },
+        "scalar_noncanonical" => {
+            // another 32-byte encoding of the SAME scalar (value + group order): must be refused by the decoder
+            let mut cur = [0u8; 32];
+            cur.copy_from_slice(&bytes[off..off + 32]);
+            let b = env::noncanonical_encoding_of(&cur, &format!("nc_{}_{}", idx, e));
+            bytes[off..off + 32].copy_from_slice(&b);
+        },
         "elem_opaque" => {
             let is_point = !matches!(role(x, e).0, "d1" | "r1" | "s1");
             let (b, _) = env::new_elem(is_point, &format!("te_{}_{}", idx, e));
@@ -240,6 +247,15 @@ pub fn tamper_statement(
             let xx = spec["x"].as_u64().unwrap() as usize;
             let pc = ristretto::create_pedersen_gens_with_extension_degree(ext_degree(xx));
             params = RangeParameters::init(n, st.generators.max_aggregation_factor(), pc).expect("params");
+        },
+        "degree_tag" => {
+            // only the public extension-degree TAG of the Pedersen generators is altered, the generator vectors stay as they are
+            let mut pc = ristretto::create_pedersen_gens_with_extension_degree(ext_degree(x));
+            pc.extension_degree = ext_degree(spec["x"].as_u64().unwrap() as usize);
+            params = match catch_unwind(AssertUnwindSafe(|| RangeParameters::init(n, st.generators.max_aggregation_factor(), pc))) {
+                Ok(Ok(p)) => p,
+                _ => st.generators.clone(),
+            };
         },
         "g_base" | "h_base" => {
             let mut pc = ristretto::create_pedersen_gens_with_extension_degree(ext_degree(x));
